@@ -59,6 +59,10 @@ class Connection:
     direction: ClassVar[str] = 'undefined'
     identifier: ClassVar[dict[str, int]] = {}
 
+    # bytes taken off the socket by a read which was cancelled before it had the whole message
+    # (Peer._main reads under asyncio.wait_for): they are still part of the stream
+    _unread: bytes = b''
+
     def __init__(self, afi: AFI, peer: str, local: str) -> None:
         self.msg_size: int = ExtendedMessage.INITIAL_SIZE
         self.defensive: bool = getenv().debug.defensive
@@ -243,6 +247,12 @@ class Connection:
         view = memoryview(buffer)
         offset = 0
 
+        # what an interrupted read left behind comes first
+        if self._unread:
+            offset = min(number, len(self._unread))
+            view[:offset] = self._unread[:offset]
+            self._unread = self._unread[offset:]
+
         while offset < number:
             try:
                 # asyncio.sock_recv_into() handles I/O waiting automatically via event loop
@@ -258,6 +268,11 @@ class Connection:
 
                 offset += nbytes
 
+            except asyncio.CancelledError:
+                # the segments of one message can arrive further apart than the caller is ready
+                # to wait: keep what we have, or the next read starts in the middle of a message
+                self._unread = bytes(view[:offset]) + self._unread
+                raise
             except socket.timeout as exc:
                 self.close()
                 log.warning(lazymsg('tcp.timeout name={n} peer={p}', n=self.name(), p=self.peer), self.session())
@@ -451,6 +466,12 @@ class Connection:
             return length, msg, header, memoryview(b''), None
 
         # Read body
-        body = await self._reader_async(number)
+        try:
+            body = await self._reader_async(number)
+        except asyncio.CancelledError:
+            # interrupted between header and end of body: the header goes back in front of what
+            # _reader_async kept of the body
+            self._unread = bytes(header) + self._unread
+            raise
 
         return length, msg, header, body, None
